@@ -34,7 +34,7 @@ func init() {
 			{Name: "parsed-url-used-on-error", File: "extractor/filesystem/sbom/spdx/spdx.go", Old: "					pkg.Name = packageURL.Name\n					m.PURL = &packageURL\n", New: "					m.PURL = &packageURL\n				}\n				if pkg.Name == \"\" {\n					pkg.Name = packageURL.Name\n", Rule: "D1-parsed-url", Site: "spdx"},
 			{Name: "index-key", File: "packageindex/package_index.go", Old: "pkgMap[p.Type][p.Name] = append(pkgMap[p.Type][p.Name], pkg)", New: "pkgMap[p.Type][pkg.Name] = append(pkgMap[p.Type][pkg.Name], pkg)", Rule: "D4-index-key", Site: "New"},
 		},
-		Neutral: []Mutant{validTypeHoisted},
+		Neutral: c14Neutral,
 	})
 }
 
